@@ -136,9 +136,12 @@ def c02_2(ctx: Ctx) -> RuleResult:
     for f, c in sites:
         # the call as its (single) caller chain sees it: a solve moved into a private helper is the same solve
         t, _top = contextual(ctx, f, X.at(f, c))
-        if len(t[2]) != 2:
+        from ..callgraph import positional_args
+
+        mr = [a for a in positional_args(s, t)[:2]]
+        if len(mr) != 2 or any(a is None for a in mr):
             raise AnalysisError("solver call does not have (matrix, vector) arguments")
-        M, R = t[2]
+        M, R = mr
         ok = M[0] == "sub" and R[0] == "sub"
         if not ok:
             res.add(f, c, "matrix and right-hand side are row selections", False, f"arguments are `{show(M, 50)}` / `{show(R, 50)}`: NaN rows of failed perturbations enter the solve",
@@ -335,7 +338,9 @@ def c02_5(ctx: Ctx) -> RuleResult:
         # was moved into a private single-use helper, the caller that prepares its arguments
         f, fm, fr = f0, set(), set()
         for g_, t_ in context_chain(ctx, f0, X.at(f0, c)):
-            M, R = t_[2]
+            from ..callgraph import positional_args
+
+            M, R = positional_args(s, t_)[:2]
             fm, fr = _weight_factors(ctx, g_, M), _weight_factors(ctx, g_, R)
             if fm or fr:
                 f = g_
